@@ -205,3 +205,10 @@ Definition blocking_tls_ok (rows : list (string * list string)) : bool :=
 
 Lemma link_blocking_tls : blocking_tls_ok C12_Table.construction_table = true.
 Proof. vm_compute. reflexivity. Qed.
+
+(* the only method that swallows every error (and so never reports a failure to the breaker) is PingCtx *)
+Definition swallows_all (r : row) : bool :=
+  match r with Cmd _ _ c => match r_nil c with AllErrSwallowed => true | _ => false end | _ => false end.
+
+Lemma link_all_err_swallowers : map row_name (filter swallows_all C12_Table.redis_table) = ["PingCtx"].
+Proof. reflexivity. Qed.
